@@ -533,7 +533,11 @@ func (fe *verifFE) expr1(e ast.Expr, two bool) {
 	case *ast.FuncLit:
 		sig := fe.sig(v.Type)
 		cb.NewClosure(sig.Params(), sig.Results(), sig.Variadic()).BodyStart(fe.pkg)
+		outer := fe.labels // a function literal has its own label namespace
+		fe.labels = map[string]*Label{}
+		fe.declareLabels(v.Body.List)
 		fe.stmts(v.Body.List)
+		fe.labels = outer
 		cb.End()
 	case *ast.CompositeLit:
 		fe.compositeLit(v)
